@@ -107,12 +107,29 @@ def hr (p : List Item) : Nat :=
 @[simp] theorem hr_nil : hr [] = 26 := rfl
 @[simp] theorem hr_cons (x : Item) (p : List Item) : hr (x :: p) = rank x := rfl
 
-def Sorted (p : List Item) : Prop := p.Pairwise (fun a b => rank a ≤ rank b)
+/-- order of two items in a program: strictly increasing rank, except inside the chunk phase (16) and inside the
+collection of per-chunk metadata (20), where many items share the rank -/
+def rle (a b : Item) : Prop := rank a < rank b ∨ (rank a = rank b ∧ (rank a = 16 ∨ rank a = 20))
+
+def Sorted (p : List Item) : Prop := p.Pairwise rle
 
 theorem Sorted.tail {x : Item} {p : List Item} (h : Sorted (x :: p)) : Sorted p := (List.pairwise_cons.mp h).2
 
-theorem Sorted.head_le {x : Item} {p : List Item} (h : Sorted (x :: p)) : ∀ y ∈ p, rank x ≤ rank y :=
+theorem Sorted.head_rle {x : Item} {p : List Item} (h : Sorted (x :: p)) : ∀ y ∈ p, rle x y :=
   (List.pairwise_cons.mp h).1
+
+theorem Sorted.head_le {x : Item} {p : List Item} (h : Sorted (x :: p)) : ∀ y ∈ p, rank x ≤ rank y := by
+  intro y hy
+  rcases h.head_rle y hy with h | h <;> omega
+
+theorem hr_tail_gt {x : Item} {p : List Item} (h : Sorted (x :: p)) (hx : rank x ≤ 25) (h16 : rank x ≠ 16)
+    (h20 : rank x ≠ 20) : rank x < hr p := by
+  cases p with
+  | nil => simp; omega
+  | cons y q =>
+    rcases h.head_rle y (by simp) with h | h
+    · simpa using h
+    · omega
 
 theorem hr_tail_ge {x : Item} {p : List Item} (h : Sorted (x :: p)) (hx : rank x ≤ 26) : rank x ≤ hr p := by
   cases p with
@@ -237,7 +254,7 @@ theorem Shape.tail {x : Item} {p : List Item} (h : Shape (x :: p)) : Shape p :=
   ⟨h.sorted.tail, fun y hy => h.ok y (by simp [hy]), Miles.tail h.sorted h.miles⟩
 
 theorem sorted_closeItems : Sorted closeItems := by
-  simp [Sorted, closeItems, flushItems, rank]
+  simp [Sorted, rle, closeItems, flushItems, rank]
 
 theorem ok_closeItems : ∀ x ∈ closeItems, okItem x = true := by
   intro x hx
@@ -254,9 +271,9 @@ theorem shape_mid_close {mid : List Item} (hr16 : ∀ x ∈ mid, rank x = 16) (h
     Shape (mid ++ closeItems) := by
   refine ⟨?_, ?_, ?_⟩
   · refine List.pairwise_append.mpr ⟨?_, sorted_closeItems, ?_⟩
-    · exact List.pairwise_of_forall_mem_list (fun a ha b hb => by rw [hr16 a ha, hr16 b hb]; exact Nat.le_refl _)
+    · exact List.pairwise_of_forall_mem_list (fun a ha b hb => Or.inr ⟨by rw [hr16 a ha, hr16 b hb], Or.inl (hr16 a ha)⟩)
     · intro a ha b hb
-      rw [hr16 a ha]; have := rank_closeItems_ge b hb; omega
+      left; rw [hr16 a ha]; have := rank_closeItems_ge b hb; omega
   · intro x hx
     rcases List.mem_append.mp hx with h | h
     · exact hok x h
@@ -313,9 +330,9 @@ theorem shape_saverProg (v : Variant) (cs : List Chunk) : Shape (saverProg v {} 
     · have := rank_closeItems_ge y h; omega
   refine ⟨?_, ?_, ?_⟩
   · refine List.pairwise_append.mpr ⟨?_, hmc.sorted, ?_⟩
-    · simp [initItems, flushItems, rank]
+    · simp [rle, initItems, flushItems, rank]
     · intro a ha b hb
-      have := (hin a ha).1; have := hge b hb; omega
+      left; have := (hin a ha).1; have := hge b hb; omega
   · intro x hx
     rcases List.mem_append.mp hx with h | h
     · exact (hin x h).2
